@@ -18,15 +18,23 @@ import (
 
 type defaultCol struct {
 	file, col, def string
+	// vals: legal values the column may be given in every row (one deviation), so that a default
+	// that wrongly depends on a neighbouring column's value, or on the value of another row, shows
+	vals []string
 }
 
+var enum03 = []string{"0", "1", "2", "3"}
+var enum02 = []string{"0", "1", "2"}
+
 var defaultCols = []defaultCol{
-	{"routes.txt", "route_color", "FFFFFF"}, {"routes.txt", "route_text_color", "000000"}, {"routes.txt", "continuous_pickup", "1"}, {"routes.txt", "continuous_drop_off", "1"},
-	{"stops.txt", "location_type", "0"}, {"stops.txt", "wheelchair_boarding", "0"},
-	{"transfers.txt", "transfer_type", "0"},
-	{"trips.txt", "direction_id", ""}, {"trips.txt", "wheelchair_accessible", "0"}, {"trips.txt", "bikes_allowed", "0"},
-	{"frequencies.txt", "exact_times", "0"},
-	{"stop_times.txt", "pickup_type", "0"}, {"stop_times.txt", "drop_off_type", "0"}, {"stop_times.txt", "continuous_pickup", "1"}, {"stop_times.txt", "continuous_drop_off", "1"}, {"stop_times.txt", "timepoint", "1"},
+	{"routes.txt", "route_color", "FFFFFF", []string{"000000", "FFFFFF", "00FF00"}}, {"routes.txt", "route_text_color", "000000", []string{"FFFFFF", "000000", "FF00FF"}},
+	{"routes.txt", "continuous_pickup", "1", enum03}, {"routes.txt", "continuous_drop_off", "1", enum03},
+	{"stops.txt", "location_type", "0", nil}, {"stops.txt", "wheelchair_boarding", "0", enum02},
+	{"transfers.txt", "transfer_type", "0", enum03},
+	{"trips.txt", "direction_id", "", []string{"0", "1"}}, {"trips.txt", "wheelchair_accessible", "0", enum02}, {"trips.txt", "bikes_allowed", "0", enum02},
+	{"frequencies.txt", "exact_times", "0", []string{"0", "1"}},
+	{"stop_times.txt", "pickup_type", "0", enum03}, {"stop_times.txt", "drop_off_type", "0", enum03}, {"stop_times.txt", "continuous_pickup", "1", enum03}, {"stop_times.txt", "continuous_drop_off", "1", enum03},
+	{"stop_times.txt", "timepoint", "1", []string{"0", "1"}},
 }
 
 var spellingNames = []string{"as-written", "column-omitted", "blank-all-rows", "blank-first-row", "blank-last-row", "explicit-default"}
@@ -53,6 +61,19 @@ func applySpelling(t *table, col string, spelling int, def string) {
 func c10Defaults(c *Ctx) {
 	m := genStaticFeed(c, false)
 	var applied []string
+	var valued []string
+	for _, dc := range defaultCols {
+		if len(dc.vals) == 0 {
+			continue
+		}
+		if k := c.Choose(dc.file+":"+dc.col+".value-in-every-row", len(dc.vals)+1); k > 0 {
+			t := m.t(dc.file)
+			for r := range t.Rows {
+				t.set(r, dc.col, dc.vals[k-1])
+			}
+			valued = append(valued, fmt.Sprintf("%s:%s:=%s", dc.file, dc.col, dc.vals[k-1]))
+		}
+	}
 	for _, dc := range defaultCols {
 		sp := c.Choose(dc.file+":"+dc.col, len(spellingNames))
 		if sp != 0 {
@@ -84,7 +105,10 @@ func c10Defaults(c *Ctx) {
 		applied = append(applied, "stop_times:arrival_time-column-omitted")
 	}
 	inherit := c.Choose("inherit_wheelchair_boarding", 2) == 1
-	c10Compare(c, m, inherit, applied)
+	if len(applied) > 0 && len(valued) > 0 {
+		c.Witness("default_next_to_chosen_neighbour_value")
+	}
+	c10Compare(c, m, inherit, append(applied, valued...))
 }
 
 func c10Compare(c *Ctx, m *feedModel, inherit bool, applied []string) {
@@ -149,6 +173,9 @@ func c10Inheritance(c *Ctx) {
 	c2HasParent := c2Parent == 0
 	colAbsent := c.Free("wheelchair_boarding_column_absent", 2) == 1
 	parentFirst := c.Free("parent_row_first", 2) == 0
+	// the children may leave every optional cell blank while the station fills them in: the option
+	// copies wheelchair boarding and nothing else
+	childrenBlank := c.Free("children_leave_optional_cells_blank", 2) == 1
 	// rows of the base: S1 (station), S2 (child of S1), S3
 	pr, c1r, c2r := 0, 1, 2
 	st.set(pr, "location_type", parentType)
@@ -170,6 +197,13 @@ func c10Inheritance(c *Ctx) {
 		st.set(c2r, "parent_station", c1id)
 		st.set(c2r, "location_type", "4") // a boarding area whose parent is a platform
 	}
+	if childrenBlank {
+		for _, r := range []int{c1r, c2r} {
+			for _, col := range []string{"stop_code", "stop_desc", "zone_id", "stop_url", "stop_timezone", "platform_code", "stop_lon", "stop_lat"} {
+				st.set(r, col, "")
+			}
+		}
+	}
 	if !parentFirst {
 		st.Rows[0], st.Rows[1] = st.Rows[1], st.Rows[0]
 		// stop ids are referenced from other tables by value, row order is free
@@ -177,7 +211,7 @@ func c10Inheritance(c *Ctx) {
 	if colAbsent {
 		st.dropCol("wheelchair_boarding")
 	}
-	applied := []string{fmt.Sprintf("parent{type=%q wb=%q} child1.wb=%q child2.wb=%q child2Parent=%d colAbsent=%v parentFirst=%v", parentType, parentWB, c1, c2, c2Parent, colAbsent, parentFirst)}
+	applied := []string{fmt.Sprintf("parent{type=%q wb=%q} child1.wb=%q child2.wb=%q child2Parent=%d colAbsent=%v parentFirst=%v childrenBlank=%v", parentType, parentWB, c1, c2, c2Parent, colAbsent, parentFirst, childrenBlank)}
 	if inherit && parentType == "1" && (c1 == "" || c1 == "0") {
 		c.Witness("inheritance_applies")
 	}
@@ -188,7 +222,7 @@ func init() {
 	register(&Check{
 		ID:    "C10",
 		Level: "model_checking",
-		Rule: "base feed x 16 default-bearing optional columns x 6 spellings (as written / column omitted / blank everywhere / blank first row / blank last row / explicit default), one-sided arrival or departure per stop_times row, either time column omitted, inheritance option; k deviations at a time (quick 2, thorough 4); plus the full inheritance product (option x parent type x parent value x two children's values x second child's parent {station, none, the first child (three levels)} x column absent x row order = 6 144); " +
+		Rule: "base feed x 16 default-bearing optional columns x 6 spellings (as written / column omitted / blank everywhere / blank first row / blank last row / explicit default), each default-bearing column given each of its legal values in every row (000000 / FFFFFF colours, every enum digit), one-sided arrival or departure per stop_times row, either time column omitted, inheritance option; k deviations at a time (quick 2, thorough 4); plus the full inheritance product (option x parent type x parent value x two children's values x second child's parent {station, none, the first child (three levels)} x column absent x row order x children with every optional cell blank = 12 288); " +
 			"non-trivial = distinct feeds with at least one non-explicit spelling; oracle = reference interpretation with the GTFS reference defaults",
 		Assumptions: []string{"defaults are those of the GTFS schedule reference: route_color FFFFFF, route_text_color 000000, pickup/drop_off 0, continuous_* 1, timepoint 1, transfer_type 0, exact_times 0, wheelchair/bikes 0, location_type 0"},
 		Scenarios: func(tier string) []*Scenario {
